@@ -3,7 +3,7 @@
    C17_layouts_current (coq/gen/C17Layouts.v = this table, re-extracted from codewriter.cpp on every run) this ties the
    field positions of the model to the source text, not only to its behaviour. *)
 From Coq Require Import ZArith Lia Bool List.
-From Verif Require Import Base.ZBits Codec.OffsetModel Codec.OffsetProofs Codec.OffsetFormatsProofs Codec.T32FixModel Codec.T32FixProofs Codec.LayoutModel.
+From Verif Require Import Base.ZBits Codec.OffsetModel Codec.OffsetProofs Codec.OffsetFormatsProofs Codec.T32FixModel Codec.T32FixProofs Codec.ImmModel Codec.LayoutModel.
 Import ListNotations.
 Local Open Scope Z_scope.
 
@@ -351,3 +351,87 @@ Example layout_eval_witness :
              eval_layout l 4 21 4 0 0 = None) /\
   layout_of SignedOffset expected_layouts = None.
 Proof. repeat split; try (eexists; split; [reflexivity|]); vm_compute; try reflexivity. split; reflexivity. Qed.
+
+(* fixup.h: has_sign_bit of the model is exactly the list in the source; every constructor is an enumerator, once *)
+Theorem has_sign_bit_spec t : has_sign_bit t = true <-> In t expected_sign_types.
+Proof.
+  unfold expected_sign_types. split.
+  - destruct t; intros H; try discriminate H; cbn; tauto.
+  - intros [<- | [<- | [<- | [<- | []]]]]; reflexivity.
+Qed.
+
+Theorem otype_order_complete t : In t expected_otype_order /\ NoDup expected_otype_order.
+Proof.
+  split; [destruct t; cbn; tauto|].
+  unfold expected_otype_order. repeat constructor; cbn; intuition discriminate.
+Qed.
+
+(* armutils.h: the constants of the table are the ones the model computes with *)
+Theorem arm_consts_used :
+  (forall n p, In (n, p) expected_fp_params -> fp_params n = p) /\
+  (forall imm, is_add_sub_imm imm = ((imm <=? nth 0 expected_arm_consts 0) ||
+                                     (Z.land imm (not64 (nth 0 expected_arm_consts 0 * 2 ^ nth 1 expected_arm_consts 0)) =? 0))) /\
+  (forall imm, is_byte_mask_imm imm = (imm =? (Z.land imm (nth 2 expected_arm_consts 0) * 255) mod 2 ^ 64)).
+Proof.
+  split; [|split; intros imm; reflexivity].
+  intros n p [H | [H | [H | [H | []]]]]; injection H as <- <-; reflexivity.
+Qed.
+
+(* every format the backends build satisfies the hypotheses of a round-trip / refusal theorem *)
+Lemma fmt_supported_sound f : fmt_supported f = true ->
+  (ty f = SignedOffset /\ wf_contig f) \/ (ty f = UnsignedOffset /\ (wf_contig32 f \/ wf_contig64 f)) \/ is_adr_fmt f.
+Proof.
+  unfold fmt_supported. intros H.
+  destruct (ty f) eqn:Ety; try discriminate H.
+  - left. split; [reflexivity|].
+    repeat (apply andb_true_iff in H; destruct H as [H ?]).
+    repeat match goal with
+           | H : (_ <=? _) = true |- _ => apply Z.leb_le in H
+           | H : (_ <? _) = true |- _ => apply Z.ltb_lt in H
+           end.
+    unfold wf_contig. repeat split; lia.
+  - right; left. split; [reflexivity|]. apply wf_contig_cases.
+    repeat (apply andb_true_iff in H; destruct H as [H ?]).
+    repeat match goal with
+           | H : (_ <=? _) = true |- _ => apply Z.leb_le in H
+           | H : (_ <? _) = true |- _ => apply Z.ltb_lt in H
+           end.
+    unfold wf_contig. repeat split; lia.
+  - right; right.
+    repeat (apply andb_true_iff in H; destruct H as [H ?]).
+    repeat match goal with
+           | H : (_ <=? _) = true |- _ => apply Z.leb_le in H
+           | H : (_ =? _) = true |- _ => apply Z.eqb_eq in H
+           end.
+    unfold is_adr_fmt. rewrite Ety. repeat split; try lia; try (left; reflexivity).
+  - right; right.
+    repeat (apply andb_true_iff in H; destruct H as [H ?]).
+    repeat match goal with
+           | H : (_ <=? _) = true |- _ => apply Z.leb_le in H
+           | H : (_ =? _) = true |- _ => apply Z.eqb_eq in H
+           end.
+    unfold is_adr_fmt. rewrite Ety. repeat split; try lia; try (right; reflexivity).
+Qed.
+
+Lemma used_formats_supported : forallb fmt_supported expected_used_formats = true.
+Proof. vm_compute. reflexivity. Qed.
+
+Theorem used_formats_covered f : In f expected_used_formats ->
+  (ty f = SignedOffset /\ wf_contig f) \/ (ty f = UnsignedOffset /\ (wf_contig32 f \/ wf_contig64 f)) \/ is_adr_fmt f.
+Proof.
+  intros H. apply fmt_supported_sound. pose proof used_formats_supported as Hs. rewrite forallb_forall in Hs. apply Hs. exact H.
+Qed.
+
+(* the wire numbering is a bijection between 0..11 and the constructors *)
+Theorem otype_of_index_spec t : exists i, 0 <= i < 12 /\ otype_of_index i = Some t /\ forall j, otype_of_index j = Some t -> j = i.
+Proof.
+  assert (Hall : forall j t', otype_of_index j = Some t' -> 0 <= j < 12).
+  { intros j t' H. unfold otype_of_index in H. destruct (Z.ltb_spec j 0); [discriminate|].
+    assert (Hl : (Z.to_nat j < length expected_otype_order)%nat) by (apply nth_error_Some; congruence).
+    cbn in Hl. lia. }
+  assert (Hc : forall j, 0 <= j < 12 -> j = 0 \/ j = 1 \/ j = 2 \/ j = 3 \/ j = 4 \/ j = 5 \/ j = 6 \/ j = 7 \/ j = 8 \/ j = 9 \/ j = 10 \/ j = 11) by (intros; lia).
+  destruct t;
+    [exists 0 | exists 1 | exists 2 | exists 3 | exists 4 | exists 5 | exists 6 | exists 7 | exists 8 | exists 9 | exists 10 | exists 11];
+    (split; [lia|]); (split; [reflexivity|]); intros j Hj; pose proof (Hall j _ Hj) as Hr;
+    destruct (Hc j Hr) as [-> | [-> | [-> | [-> | [-> | [-> | [-> | [-> | [-> | [-> | [-> | ->]]]]]]]]]]]; try reflexivity; discriminate Hj.
+Qed.
